@@ -196,3 +196,44 @@ class BallisticEngine(_LatBase):
         system.config = (conf_out, 0)
         system.ekin = 0.5
         return 0.0, 0.5
+
+
+class ScriptedEngine(_LatBase):
+    """Emits prescribed trajectories: ``back`` (``forw``) frames when run
+    backward (forward): the start site repeated, then one frame outside the
+    interfaces (below ``left`` when backward or when ``forw_end`` == "L",
+    above ``right`` otherwise).  Used to put a shooting trial exactly on an
+    acceptance boundary."""
+
+    def __init__(self, timestep=1.0, subcycles=1, back=3, forw=3,
+                 forw_end="R", back_end="L"):
+        super().__init__("scripted lattice", timestep, subcycles)
+        self.back, self.forw = int(back), int(forw)
+        self.forw_end, self.back_end = forw_end, back_end
+
+    def _propagate_from(self, name, path, system, ens_set, msg_file,
+                        reverse=False):
+        import math
+        left, _, right = ens_set["interfaces"]
+        self._n = self.back if reverse else self.forw
+        end = self.back_end if reverse else self.forw_end
+        self._out = (math.floor(left) if end == "L" else math.ceil(right))
+        self._k = 0
+        return super()._propagate_from(name, path, system, ens_set, msg_file,
+                                       reverse=reverse)
+
+    def _advance(self, x, v):
+        self._k += 1
+        if self._k >= self._n - 1:
+            return self._out, v
+        return x, v
+
+    def modify_velocities(self, system, vel_settings):
+        frame = self.dump_frame(system)
+        x, _ = read_frames(frame)[0]
+        conf_out = os.path.join(self.exe_dir, f"genvel.{self.ext}")
+        with open(conf_out, "w") as f:
+            f.write(f"{x} 1\n")
+        system.config = (conf_out, 0)
+        system.ekin = 0.5
+        return 0.0, 0.5
